@@ -1349,220 +1349,163 @@ Section RelSpelling.
 End RelSpelling.
 
 (* ------------------------------------------------------------------------------------------------------------------ *)
-(* the walk for a spelling whose relevance test keeps a spec only in its own directory (K below; relative spellings) *)
+(* relative spellings, repaired code: the same characterisation as for absolute spellings *)
 
-Lemma prefixb_longer cs n : prefixb (cs ++ [n]) cs = false.
-Proof.
-  destruct (prefixb (cs ++ [n]) cs) eqn:E; [|reflexivity]. apply prefixb_spec in E as [r E].
-  apply (f_equal (@length text)) in E. rewrite !app_length in E. cbn [length] in E. lia.
-Qed.
-
-Lemma parts_eqb_false_of_prefix cs q : prefixb cs q = false -> parts_eqb q cs = false.
-Proof.
-  intros H. destruct (parts_eqb q cs) eqn:E; [|reflexivity]. apply parts_eqb_eq in E. subst. rewrite prefixb_refl in H. discriminate.
-Qed.
-
-Section WalkFalse.
-  Variable matches : nat -> list text -> bool.
-  Variable cwd : text.
-  Variable ignore_files : bool.
-  Variable outer : list specrec.
-  Variable exts : list text.
-  Variable p : text.
-  Hypothesis R : forall q T, names_ok q -> names_ok T -> prefixb q T = true ->
-    relparts cwd (abspath cwd (dn p T)) (dn p q) = skipn (length q) T.
-  Hypothesis K : forall q cs f s, names_ok q -> names_ok cs -> keep_inner cwd (dn p cs) (dn p q, f, s) = parts_eqb q cs.
-
-  Notation conc' := (conc p).
-  Notation ideal' := (ideal matches ignore_files exts (ohit matches cwd outer p) (oname p) false).
-  Notation walk' := (walk matches cwd ignore_files outer exts).
-  Notation aload' := (aload ignore_files).
-
-  Lemma walk_false : forall d, wf_dir d -> forall cs L stack, names_ok cs ->
-    (forall r, In r L -> names_ok (rq r) /\ prefixb cs (rq r) = false) ->
-    exists L', walk' d (dn p cs) cs (map conc' L) = (ideal' d cs stack, map conc' L')
-               /\ (forall r, In r L' -> names_ok (rq r) /\ prefixb cs (rq r) = true).
-  Proof.
-    induction d as [files loads subs IHsubs] using dir_ind'. intros Hwf cs L stack Hcs HL.
-    rewrite walk_unfold. cbv zeta.
-    assert (Efilter : filter (keep_inner cwd (dn p cs)) (map conc' L) = []).
-    { rewrite filter_map_comm. rewrite (filter_all_false _ L); [reflexivity|].
-      intros r Hr. destruct (HL r Hr) as [H1 H2]. unfold conc. rewrite K by assumption. apply parts_eqb_false_of_prefix. exact H2. }
-    rewrite Efilter. cbn [app].
-    assert (Eload : (if ignore_files then load_specs (dn p cs) (filter (fun f => mem_text f loader_names) files) loads else [])
-                    = map conc' (aload' cs (Dir files loads subs))) by exact (load_specs_conc ignore_files p cs (Dir files loads subs)).
-    rewrite Eload. clear Eload.
-    cbn [ideal app]. set (d := Dir files loads subs) in *. set (S2 := aload' cs d).
-    assert (HS2 : stack_ok S2 cs) by (apply aload_ok; exact Hcs).
-    assert (Hwf' := Hwf). cbn [wf_dir] in Hwf'. destruct Hwf' as [Hfiles [Hsubn [Hnd _]]].
-    assert (Hwfs := wf_dir_subs files loads subs Hwf).
-    assert (Hhere : flat_map (walk_file matches cwd outer exts (dn p cs) cs (map conc' S2)) files
-                    = flat_map (fun f => if match_file_extension f exts && negb (hit matches (ohit matches cwd outer p) S2 (cs ++ [f]))
-                                         then [(cs ++ [f], oname p (cs ++ [f]))] else []) files).
-    { apply flat_map_ext_in. intros f Hf. apply (walk_file_conc matches cwd outer exts p R); [exact Hcs| |exact HS2].
-      unfold names_ok in Hfiles. rewrite Forall_forall in Hfiles. apply Hfiles. exact Hf. }
-    assert (Hsub : forall l, Forall (fun x => forall (Hw : wf_dir (snd x)) cs L stack, names_ok cs ->
-                                 (forall r, In r L -> names_ok (rq r) /\ prefixb cs (rq r) = false) ->
-                                 exists L', walk' (snd x) (dn p cs) cs (map conc' L) = (ideal' (snd x) cs stack, map conc' L')
-                                            /\ (forall r, In r L' -> names_ok (rq r) /\ prefixb cs (rq r) = true)) l ->
-              names_ok (map fst l) -> NoDup (map fst l) -> Forall (fun x => wf_dir (snd x)) l ->
-              forall Lin, (forall r, In r Lin -> names_ok (rq r) /\ (rq r = cs \/ exists n rest, rq r = cs ++ n :: rest /\ ~ In n (map fst l))) ->
-              exists Lout, walk_subs matches cwd ignore_files outer exts (dn p cs) cs (map conc' S2) l (map conc' Lin)
-                           = (flat_map (fun x => if hit matches (ohit matches cwd outer p) S2 (cs ++ [fst x; star_t]) then []
-                                                 else ideal' (snd x) (cs ++ [fst x]) S2) l,
-                              map conc' Lout)
-                           /\ (forall r, In r Lout -> names_ok (rq r) /\ prefixb cs (rq r) = true)).
-    { induction l as [|[n sd] l IHl]; intros HIH Hn Hnd' Hw Lin HLin.
-      - exists Lin. split; [reflexivity|]. intros r Hr. destruct (HLin r Hr) as [H1 [H2|[n [rest [H2 _]]]]]; (split; [exact H1|]); rewrite H2.
-        + apply prefixb_refl.
-        + apply prefixb_spec. eexists. reflexivity.
-      - inversion HIH as [|? ? IHsd HIH']; subst. inversion Hn as [|? ? Hnn Hn']; subst. inversion Hnd' as [|? ? Hnotin Hnd'']; subst.
-        inversion Hw as [|? ? Hwsd Hw']; subst. cbn [fst snd] in *.
-        cbn [walk_subs flat_map fst snd].
-        rewrite (pruned_conc matches cwd outer p R cs S2 n Hcs Hnn HS2).
-        destruct (hit matches (ohit matches cwd outer p) S2 (cs ++ [n; star_t])) eqn:Ehit.
-        + cbn [app]. apply (IHl HIH' Hn' Hnd'' Hw' Lin).
-          intros r Hr. destruct (HLin r Hr) as [H1 [H2|[n' [rest [H2 H3]]]]]; (split; [exact H1|]); [left; exact H2|].
-          right. exists n', rest. split; [exact H2|]. intros Hin. apply H3. right. exact Hin.
-        + rewrite <- dn_snoc.
-          assert (Hcsn : names_ok (cs ++ [n])) by (apply names_ok_snoc; assumption).
-          destruct (IHsd Hwsd (cs ++ [n]) Lin S2 Hcsn) as [L1 [E1 HL1]].
-          * intros r Hr. destruct (HLin r Hr) as [H1 [H2|[n' [rest [H2 H3]]]]]; (split; [exact H1|]); rewrite H2.
-            -- apply prefixb_longer.
-            -- destruct (prefixb (cs ++ [n]) (cs ++ n' :: rest)) eqn:E; [|reflexivity]. exfalso.
-               apply prefixb_spec in E as [r' E]. rewrite <- app_assoc in E. apply app_inv_head in E. cbn [app] in E. injection E as E _.
-               subst n'. apply H3. left. reflexivity.
-          * rewrite E1.
-            destruct (IHl HIH' Hn' Hnd'' Hw' L1) as [Lout [E2 HLout]].
-            -- intros r Hr. destruct (HL1 r Hr) as [H1 H2]. split; [exact H1|]. right.
-               apply prefixb_spec in H2 as [rest H2]. exists n, rest. split; [rewrite H2, <- app_assoc; reflexivity|exact Hnotin].
-            -- rewrite E2. exists Lout. split; [reflexivity|exact HLout]. }
-    destruct (Hsub subs IHsubs Hsubn Hnd Hwfs S2) as [Lout [E HLout]].
-    { intros r Hr. destruct (HS2 r Hr) as [H1 _]. split; [exact H1|]. left.
-      unfold S2, aload in Hr. apply in_map_iff in Hr as [fs [<- _]]. reflexivity. }
-    rewrite E. cbn [fst snd]. exists Lout. split; [|exact HLout]. rewrite Hhere. reflexivity.
-  Qed.
-End WalkFalse.
-
-Section SelectedFalse.
-  Variable matches : nat -> list text -> bool.
-  Variable ignore_files : bool.
-  Variable exts : list text.
-  Variable outer_hit : list text -> bool.
-  Variable out_name : list text -> text.
-
-  Notation aload' := (aload ignore_files).
-  Notation hit' := (hit matches outer_hit).
-  Notation ideal' := (ideal matches ignore_files exts outer_hit out_name false).
-  Notation inner_hit' := (inner_hit matches ignore_files false).
-
-  Definition hitF (d : dir) (cs0 cs T : list text) : Prop := outer_hit (cs0 ++ T) = true \/ inner_hit' d cs T.
-
-  Lemma hitF_here d cs0 T : hit' (aload' cs0 d) (cs0 ++ T) = true <-> hitF d cs0 [] T.
-  Proof.
-    rewrite hit_true_iff. unfold hitF. split.
-    - intros [H|[r [Hr Hm]]]; [left; exact H|]. right.
-      unfold aload in Hr. apply in_map_iff in Hr as [fs [<- Hfs]]. unfold rq in Hm. cbn [fst snd] in Hm.
-      rewrite skipn_length_app in Hm. exists 0, fs. cbn [length firstn skipn]. repeat split; auto.
-    - intros [H|[k [fs [Hk [_ [Hfs Hm]]]]]]; [left; exact H|].
-      cbn [length] in Hk. assert (k = 0) by lia. subst k. cbn [firstn skipn] in *.
-      right. exists (cs0, fst fs, snd fs). split.
-      + unfold aload. apply in_map_iff. exists fs. split; [reflexivity|exact Hfs].
-      + unfold rq. cbn [fst snd]. rewrite skipn_length_app. exact Hm.
-  Qed.
-
-  Lemma hitF_child files loads subs n sd cs0 cs' T' : assoc n subs = Some sd ->
-    hitF sd (cs0 ++ [n]) cs' T' <-> hitF (Dir files loads subs) cs0 (n :: cs') (n :: T').
-  Proof.
-    intros Ha. set (d := Dir files loads subs).
-    assert (Hspec : forall k, specs_at ignore_files d (firstn (S k) (n :: cs')) = specs_at ignore_files sd (firstn k cs')).
-    { intros k. unfold specs_at. cbn [firstn dir_at d_subs d]. rewrite Ha. reflexivity. }
-    unfold hitF. rewrite <- !app_assoc. cbn [app]. split.
-    - intros [H|[k [fs [Hk [Hm' [Hfs Hm]]]]]]; [left; exact H|].
-      right. exists (S k), fs. rewrite Hspec. cbn [length skipn]. repeat split; [lia|intros _; f_equal; apply Hm'; reflexivity|exact Hfs|exact Hm].
-    - intros [H|[k [fs [Hk [Hm' [Hfs Hm]]]]]]; [left; exact H|].
-      specialize (Hm' eq_refl). cbn [length] in Hm'. destruct k as [|k]; [discriminate|]. injection Hm' as Hm'.
-      rewrite Hspec in Hfs. cbn [skipn] in Hm. right. exists k, fs. repeat split; [lia|intros _; exact Hm'|exact Hfs|exact Hm].
-  Qed.
-
-  Lemma ideal_false_gen : forall d, wf_dir d -> forall cs0 stack rel out,
-    In (rel, out) (ideal' d cs0 stack) <->
-    exists cs f dd, rel = cs0 ++ cs ++ [f] /\ out = out_name rel /\ dir_at d cs = Some dd /\ In f (d_files dd)
-                    /\ match_file_extension f exts = true
-                    /\ ~ hitF d cs0 cs (cs ++ [f])
-                    /\ forall k, k < length cs -> ~ hitF d cs0 (firstn k cs) (firstn (S k) cs ++ [star_t]).
-  Proof.
-    induction d as [files loads subs IHsubs] using dir_ind'. intros Hwf cs0 stack rel out.
-    assert (Hwfs := wf_dir_subs files loads subs Hwf). rewrite Forall_forall in Hwfs, IHsubs.
-    assert (Hnd : NoDup (map fst subs)) by (cbn [wf_dir] in Hwf; tauto).
-    cbn [ideal app]. set (d := Dir files loads subs) in *. set (stack2 := aload' cs0 d).
-    rewrite in_app_iff, !in_flat_map. split.
-    - intros [[f [Hf Hin]]|[[n sd] [Hx Hin]]].
-      + destruct (match_file_extension f exts) eqn:Eext; [|destruct Hin].
-        destruct (hit' stack2 (cs0 ++ [f])) eqn:Ehit; [destruct Hin|]. cbn [negb andb] in Hin. destruct Hin as [E|[]].
-        injection E as <- <-. exists [], f, d. cbn [app length]. repeat split; auto.
-        * intros H. apply (hitF_here d cs0 [f]) in H. fold stack2 in H. congruence.
-        * intros k Hk. lia.
-      + cbn [fst snd] in Hin. destruct (hit' stack2 (cs0 ++ [n; star_t])) eqn:Ehit; [destruct Hin|].
-        assert (Ha : assoc n subs = Some sd) by (apply assoc_nodup; assumption).
-        apply (IHsubs (n, sd) Hx (Hwfs (n, sd) Hx)) in Hin. destruct Hin as [cs' [f [dd [-> [-> [Hdd [Hf [Hext [Hnh Hpr]]]]]]]]].
-        exists (n :: cs'), f, dd. rewrite <- !app_assoc. cbn [app]. repeat split; auto.
-        * cbn [dir_at d_subs d]. rewrite Ha. exact Hdd.
-        * intros H. apply Hnh. apply (hitF_child files loads subs n sd cs0 cs' (cs' ++ [f]) Ha). exact H.
-        * intros k Hk. destruct k as [|k].
-          -- cbn [firstn app]. intros H. apply (hitF_here d cs0 [n; star_t]) in H. fold stack2 in H. congruence.
-          -- cbn [firstn app]. intros H. cbn [length] in Hk. apply (Hpr k); [lia|].
-             apply (hitF_child files loads subs n sd cs0 (firstn k cs') (firstn (S k) cs' ++ [star_t]) Ha). exact H.
-    - intros [cs [f [dd [-> [-> [Hdd [Hf [Hext [Hnh Hpr]]]]]]]]]. destruct cs as [|n cs'].
-      + left. cbn [dir_at] in Hdd. injection Hdd as <-. exists f. split; [exact Hf|]. rewrite Hext.
-        destruct (hit' stack2 (cs0 ++ [f])) eqn:Ehit.
-        * exfalso. apply Hnh. apply (hitF_here d cs0 [f]). exact Ehit.
-        * left. reflexivity.
-      + right. cbn [dir_at d_subs d] in Hdd. destruct (assoc n subs) as [sd|] eqn:Ha; [|discriminate].
-        assert (Hx := assoc_in n subs sd Ha). exists (n, sd). split; [exact Hx|]. cbn [fst snd].
-        destruct (hit' stack2 (cs0 ++ [n; star_t])) eqn:Ehit.
-        * exfalso. apply (Hpr 0); [cbn [length]; lia|]. cbn [firstn app]. apply (hitF_here d cs0 [n; star_t]). exact Ehit.
-        * apply (IHsubs (n, sd) Hx (Hwfs (n, sd) Hx)). exists cs', f, dd. rewrite <- !app_assoc. cbn [app]. repeat split; auto.
-          -- intros H. apply Hnh. apply (hitF_child files loads subs n sd cs0 cs' (cs' ++ [f]) Ha) in H. exact H.
-          -- intros k Hk H. apply (Hpr (S k)); [cbn [length]; lia|]. cbn [firstn app].
-             apply (hitF_child files loads subs n sd cs0 (firstn k cs') (firstn (S k) cs' ++ [star_t]) Ha) in H. exact H.
-  Qed.
-
-  Theorem ideal_false_spec d rel out : wf_dir d ->
-    (In (rel, out) (ideal' d [] []) <-> exists cs f, rel = cs ++ [f] /\ out = out_name rel /\ selected matches ignore_files exts outer_hit false d cs f).
-  Proof.
-    intros Hwf. rewrite (ideal_false_gen d Hwf [] [] rel out). cbn [app].
-    split.
-    - intros [cs [f [dd [-> [-> [Hdd [Hf [Hext [Hnh Hpr]]]]]]]]]. exists cs, f. repeat split. exists dd. repeat split; auto.
-    - intros [cs [f [-> [-> [dd [Hdd [Hf [Hext [Hnh Hpr]]]]]]]]]. exists cs, f, dd. repeat split; auto.
-  Qed.
-End SelectedFalse.
-
-(* relative spellings: what the walk selects *)
 Theorem walk_spec_rel_lemma matches cwd ignore_files outer exts cw p d :
-  cw <> [] -> names_ok cw -> cwd = slashcat cw -> p <> [] -> isabs p = false -> wf_dir d ->
+  cw <> [] -> names_ok cw -> cwd = slashcat cw -> p <> [] -> isabs p = false -> parts_of cwd p <> [] -> wf_dir d ->
   forall rel out,
     In (rel, out) (iter_files_in_path matches cwd ignore_files outer exts d p) <->
     exists cs f, rel = cs ++ [f] /\ out = oname p (cs ++ [f])
-                 /\ selected matches ignore_files exts (ohit matches cwd outer p) false d cs f.
+                 /\ selected matches ignore_files exts (outer_hit_abs matches cwd outer (parts_of cwd p)) true d cs f.
 Proof.
-  intros Hcw Hok Hcwd Hp Hrel Hwf rel out. unfold iter_files_in_path.
-  destruct (walk_false matches cwd ignore_files outer exts p
-              (R_rel cwd cw p Hcw Hok Hcwd Hp Hrel) (keep_rel cwd cw p Hcw Hok Hcwd Hp Hrel) d Hwf [] [] [])
-    as [L' [E _]]; [constructor|intros r []|].
-  cbn [map] in E. unfold dn at 1 in E. cbn [fold_left] in E. rewrite E. cbn [fst].
-  rewrite (ideal_false_spec matches ignore_files exts _ _ d rel out Hwf). split.
-  - intros [cs [f [-> [-> H]]]]. exists cs, f. repeat split. exact H.
-  - intros [cs [f [-> [-> H]]]]. exists cs, f. repeat split. exact H.
+  intros Hcw Hok Hcwd Hp Hrel Hroot Hwf rel out. unfold iter_files_in_path.
+  assert (Eb := base_is_parts cwd cw p Hcw Hok Hcwd Hp Hrel).
+  assert (Hb : base cw p <> []) by (rewrite <- Eb; exact Hroot).
+  destruct (walk_true matches cwd ignore_files outer exts p
+              (R_rel cwd cw p Hcw Hok Hcwd Hp Hrel)
+              (fun q cs f s => keep_rel cwd cw p Hcw Hok Hcwd Hp Hrel q cs f s Hb) d Hwf [] [] [])
+    as [J' [E _]]; [constructor|intros r []|intros r []|].
+  cbn [app map] in E. unfold dn at 1 in E. cbn [fold_left] in E. rewrite E. cbn [fst].
+  rewrite (ideal_true_spec matches ignore_files exts _ _ d rel out Hwf).
+  assert (Hoh : forall T, names_ok T -> ohit matches cwd outer p T = outer_hit_abs matches cwd outer (parts_of cwd p) T).
+  { intros T HT. unfold ohit, outer_hit_abs. rewrite Eb. rewrite (abspath_dn_rel' cwd cw p Hcw Hok Hcwd Hp Hrel T Hb HT). reflexivity. }
+  split.
+  - intros [cs [f [-> [-> H]]]]. exists cs, f. repeat split. eapply selected_ext; [exact Hwf|exact Hoh|exact H].
+  - intros [cs [f [-> [-> H]]]]. exists cs, f. repeat split. eapply selected_ext; [exact Hwf| |exact H].
+    intros T HT. symmetry. apply Hoh. exact HT.
 Qed.
 
-(* fewer ignore specs apply in the degenerate mode, so it can only select more *)
-Lemma selected_mono matches ignore_files exts oh d cs f :
-  selected matches ignore_files exts oh true d cs f -> selected matches ignore_files exts oh false d cs f.
+(* walk level: a relative spelling (with or without "..") and the absolute spelling of the same directory select the same files,
+   given the same outer specs *)
+Theorem walk_spelling_invariance matches cwd ignore_files outer exts cw p d :
+  cw <> [] -> names_ok cw -> cwd = slashcat cw -> p <> [] -> isabs p = false -> parts_of cwd p <> [] -> wf_dir d ->
+  forall rel, (exists out, In (rel, out) (iter_files_in_path matches cwd ignore_files outer exts d p))
+              <-> (exists out, In (rel, out) (iter_files_in_path matches cwd ignore_files outer exts d (slashcat (parts_of cwd p)))).
 Proof.
-  intros [dd [Hdd [Hf [Hext [Hnh Hpr]]]]]. exists dd.
-  assert (Hi : forall c T, ignoredP matches ignore_files oh false d c T -> ignoredP matches ignore_files oh true d c T).
-  { intros c T [H|[k [fs [Hk [_ [Hfs Hm]]]]]]; [left; exact H|]. right. exists k, fs. repeat split; [exact Hk|discriminate|exact Hfs|exact Hm]. }
-  repeat split; auto.
-  - intros k Hk H. apply (Hpr k Hk). apply Hi. exact H.
+  intros Hcw Hok Hcwd Hp Hrel Hroot Hwf rel.
+  assert (Eb := base_is_parts cwd cw p Hcw Hok Hcwd Hp Hrel).
+  assert (Hps : names_ok (parts_of cwd p)) by (rewrite Eb; apply (base_ok cw p Hok)).
+  split; intros [out H].
+  - apply (walk_spec_rel_lemma matches cwd ignore_files outer exts cw p d Hcw Hok Hcwd Hp Hrel Hroot Hwf) in H.
+    destruct H as [cs [f [-> [_ H]]]]. eexists.
+    apply (walk_spec_abs_lemma matches cwd ignore_files outer exts (parts_of cwd p) _ Hroot Hps (or_introl eq_refl) d Hwf).
+    exists cs, f. repeat split. exact H.
+  - apply (walk_spec_abs_lemma matches cwd ignore_files outer exts (parts_of cwd p) _ Hroot Hps (or_introl eq_refl) d Hwf) in H.
+    destruct H as [cs [f [-> [_ H]]]]. eexists.
+    apply (walk_spec_rel_lemma matches cwd ignore_files outer exts cw p d Hcw Hok Hcwd Hp Hrel Hroot Hwf).
+    exists cs, f. repeat split. exact H.
+Qed.
+
+(* ------------------------------------------------------------------------------------------------------------------ *)
+(* paths_from_path: spellings without ".." find the same outer ignore files as the absolute spelling *)
+
+Definition pure_comp (c : text) : bool := nonempty c && negb (text_eqb c dot_t).
+
+Lemma norm_fold_nodotdot i l : forall acc, ~ In dotdot_t l ->
+  fold_left (norm_step i) l acc = rev (filter pure_comp l) ++ acc.
+Proof.
+  induction l as [|c l IH]; intros acc H; [reflexivity|].
+  assert (Hc : c <> dotdot_t) by (intros ->; apply H; left; reflexivity).
+  assert (Hl : ~ In dotdot_t l) by (intros X; apply H; right; exact X).
+  change (fold_left (norm_step i) (c :: l) acc) with (fold_left (norm_step i) l (norm_step i acc c)).
+  change (filter pure_comp (c :: l)) with (if pure_comp c then c :: filter pure_comp l else filter pure_comp l).
+  rewrite (IH _ Hl). unfold norm_step, pure_comp, nonempty.
+  destruct (is_empty c) eqn:E1; cbn [negb andb orb]; [reflexivity|].
+  destruct (text_eqb c dot_t) eqn:E2; cbn [negb andb orb]; [reflexivity|].
+  rewrite (text_eqb_neq _ _ Hc). cbn [negb orb rev]. rewrite <- app_assoc. reflexivity.
+Qed.
+
+Lemma pure_parts_names l : names_ok l -> filter pure_comp l = l.
+Proof.
+  induction l as [|a l IH]; intros H; [reflexivity|]. inversion H as [|? ? Ha Hl]; subst.
+  change (filter pure_comp (a :: l)) with (if pure_comp a then a :: filter pure_comp l else filter pure_comp l). rewrite (IH Hl).
+  destruct (name_ok_parts a Ha) as [Hne [_ [Hd _]]]. unfold pure_comp, nonempty. destruct a; [contradiction|].
+  cbn [is_empty negb andb]. rewrite (text_eqb_neq _ _ Hd). reflexivity.
+Qed.
+
+Lemma pure_parts_slashcat l : names_ok l -> pure_parts (slashcat l) = l.
+Proof.
+  intros H. unfold pure_parts. rewrite (split_on_slashcat _ (names_noslashes _ H)).
+  change (filter (fun c => nonempty c && negb (text_eqb c dot_t)) ([] :: l)) with (filter pure_comp l). apply pure_parts_names. exact H.
+Qed.
+
+Section NoDotDot.
+  Variable cwd : text.
+  Variable cw : list text.
+  Variable p : text.
+  Hypothesis cw_ne : cw <> [].
+  Hypothesis cw_ok : names_ok cw.
+  Hypothesis cwd_is : cwd = slashcat cw.
+  Hypothesis p_ne : p <> [].
+  Hypothesis p_rel : isabs p = false.
+  Hypothesis p_nodd : ~ In dotdot_t (split_on p).
+
+  Lemma parts_of_nodotdot : parts_of cwd p = cw ++ pure_parts p.
+  Proof.
+    rewrite (base_is_parts cwd cw p cw_ne cw_ok cwd_is p_ne p_rel). unfold base, nstack, dn. cbn [fold_left].
+    rewrite (norm_fold_nodotdot 1 _ _ p_nodd). rewrite rev_app_distr, !rev_involutive. reflexivity.
+  Qed.
+
+  Lemma absolute_parts_nodotdot : absolute_parts cwd p = absolute_parts cwd (slashcat (cw ++ pure_parts p)).
+  Proof.
+    assert (Hps : names_ok (cw ++ pure_parts p)).
+    { rewrite <- parts_of_nodotdot. rewrite (base_is_parts cwd cw p cw_ne cw_ok cwd_is p_ne p_rel). apply base_ok. exact cw_ok. }
+    unfold absolute_parts. rewrite p_rel.
+    assert (Eabs : isabs (slashcat (cw ++ pure_parts p)) = true).
+    { destruct cw as [|a l]; [contradiction|]. reflexivity. }
+    rewrite Eabs. rewrite (pure_parts_slashcat _ Hps). rewrite cwd_is. rewrite (pure_parts_slashcat _ cw_ok). reflexivity.
+  Qed.
+
+  Lemma outer_specs_nodotdot root wp : outer_specs cwd root p wp = outer_specs cwd root (slashcat (cw ++ pure_parts p)) wp.
+  Proof. unfold outer_specs, iter_intermediate_paths. rewrite absolute_parts_nodotdot. reflexivity. Qed.
+End NoDotDot.
+
+(* paths_from_path on a relative spelling of a directory *)
+Lemma paths_from_path_rel matches cwd cw root p d ine ign wp exts :
+  cw <> [] -> names_ok cw -> cwd = slashcat cw -> p <> [] -> isabs p = false -> parts_of cwd p <> [] ->
+  lookup root (parts_of cwd p) = NDir d -> wf_dir d ->
+  exists l, paths_from_path_g matches cwd root p ine ign wp exts false = Ok l /\
+    forall id out, In (id, out) l <->
+      exists cs f, id = parts_of cwd p ++ cs ++ [f] /\ out = oname p (cs ++ [f])
+                   /\ selected matches ign (map lower exts)
+                               (outer_hit_abs matches cwd (if ign then outer_specs cwd root p wp else []) (parts_of cwd p)) true d cs f.
+Proof.
+  intros Hcw Hok Hcwd Hp Hrel Hroot Hl Hwf. unfold paths_from_path_g.
+  assert (Eemp : is_empty p = false) by (destruct p; [contradiction|reflexivity]).
+  rewrite Eemp, Hl. cbn [andb negb].
+  eexists. split; [reflexivity|]. intros id out.
+  rewrite (ssort_in (out_leb) (id, out)). rewrite in_map_iff. split.
+  - intros [[rel o] [E Hin]]. cbn [fst snd] in E. injection E as <- <-.
+    apply (walk_spec_rel_lemma matches cwd ign _ (map lower exts) cw p d Hcw Hok Hcwd Hp Hrel Hroot Hwf) in Hin.
+    destruct Hin as [cs [f [-> [-> Hsel]]]]. exists cs, f. repeat split. exact Hsel.
+  - intros [cs [f [-> [-> Hsel]]]]. exists (cs ++ [f], oname p (cs ++ [f])). split; [reflexivity|].
+    apply (walk_spec_rel_lemma matches cwd ign _ (map lower exts) cw p d Hcw Hok Hcwd Hp Hrel Hroot Hwf). exists cs, f. repeat split. exact Hsel.
+Qed.
+
+(* spelling invariance of paths_from_path for directory paths spelled without ".." *)
+Theorem spelling_invariance_nodotdot matches cwd cw root p d ine ign wp exts :
+  cw <> [] -> names_ok cw -> cwd = slashcat cw -> p <> [] -> isabs p = false -> ~ In dotdot_t (split_on p) ->
+  lookup root (cw ++ pure_parts p) = NDir d -> wf_dir d ->
+  exists l1 l2,
+    paths_from_path_g matches cwd root p ine ign wp exts false = Ok l1 /\
+    paths_from_path_g matches cwd root (slashcat (cw ++ pure_parts p)) ine ign wp exts false = Ok l2 /\
+    forall id, In id (map fst l1) <-> In id (map fst l2).
+Proof.
+  intros Hcw Hok Hcwd Hp Hrel Hdd Hl Hwf.
+  assert (Eparts := parts_of_nodotdot cwd cw p Hcw Hok Hcwd Hp Hrel Hdd).
+  assert (Hne : cw ++ pure_parts p <> []) by (apply app_ne_l; exact Hcw).
+  assert (Hps : names_ok (cw ++ pure_parts p)).
+  { rewrite <- Eparts. rewrite (base_is_parts cwd cw p Hcw Hok Hcwd Hp Hrel). apply base_ok. exact Hok. }
+  destruct (paths_from_path_rel matches cwd cw root p d ine ign wp exts Hcw Hok Hcwd Hp Hrel) as [l1 [E1 H1]];
+    [rewrite Eparts; exact Hne|rewrite Eparts; exact Hl|exact Hwf|].
+  destruct (paths_from_path_abs matches cwd root (cw ++ pure_parts p) _ d ine ign wp exts Hne Hps (or_introl eq_refl) Hl Hwf) as [l2 [E2 H2]].
+  exists l1, l2. split; [exact E1|]. split; [exact E2|]. intros id. rewrite !in_map_iff.
+  rewrite Eparts in H1. rewrite (outer_specs_nodotdot cwd cw p Hcw Hok Hcwd Hp Hrel Hdd root wp) in H1.
+  split.
+  - intros [[i o] [<- Hin]]. apply H1 in Hin. destruct Hin as [cs [f [-> [_ Hsel]]]].
+    exists ((cw ++ pure_parts p) ++ cs ++ [f], slashcat ((cw ++ pure_parts p) ++ cs ++ [f])). split; [reflexivity|].
+    apply H2. exists cs, f. repeat split. exact Hsel.
+  - intros [[i o] [<- Hin]]. apply H2 in Hin. destruct Hin as [cs [f [-> [_ Hsel]]]].
+    exists ((cw ++ pure_parts p) ++ cs ++ [f], oname p (cs ++ [f])). split; [reflexivity|].
+    apply H1. exists cs, f. repeat split. exact Hsel.
 Qed.
